@@ -39,6 +39,8 @@ pub fn all() -> Vec<Regression> {
         Regression { name: "D19-terminal-event-duplicates-sample", property: "C03", what: "terminal event on a step boundary (RK4 grid) must not repeat the previous sample time", f: d19 },
         Regression { name: "D20-landing-within-rounding", property: "C03", what: "Radau/BDF with max_step dividing the interval must end with Success, not StepSizeTooSmall", f: d20 },
         Regression { name: "D23-bdf-lands-on-xend", property: "C03", what: "BDF backward from 1 to 0 with first_step=span, max_step=span/3.7 must report monotone times ending at xend", f: d23 },
+        Regression { name: "D24-event-located-by-function-value", property: "C08", what: "g = 1e-6*(t-c) with c 1e-9 past a step end must be located at c (not at the step end)", f: d24 },
+        Regression { name: "D24-event-located-by-function-value-count", property: "C09", what: "g = 1e-6*(t-c): exactly one event within 2e-11 of c", f: d24 },
         Regression { name: "D16-rk4-dense-order", property: "C07", what: "RK4 cubic Hermite dense output must be O(h^4) inside a step", f: d16 },
     ]
 }
@@ -485,6 +487,20 @@ fn d23() -> Result<(), String> {
     }
     if *s.t.last().unwrap() != 0.0 {
         return Err(format!("last sample {:e} is not xend", s.t.last().unwrap()));
+    }
+    Ok(())
+}
+
+fn d24() -> Result<(), String> {
+    // RK4 on [0,1] with the default 100 steps: step ends at multiples of 0.01
+    let p = base(Base::Decay(-1.0));
+    let c0 = 0.05 + 1e-9;
+    let mut c = Cfg::new(Method::RK4, 0.0, 1.0, &p.y0);
+    c.events = vec![EventSpec::new(EvKind::T(c0)).scale(1e-6)];
+    let r = run(&p, &c);
+    let s = sol_of(&r)?;
+    if s.t_events[0].len() != 1 || (s.t_events[0][0] - c0).abs() > 2e-11 {
+        return Err(format!("events reported at {:?}, root at {:e}", s.t_events[0], c0));
     }
     Ok(())
 }
